@@ -606,9 +606,10 @@ func CheckCase(c Case) *ev.Violation {
 	case "seq":
 		return checkSeq(c)
 	case "conc":
-		return checkConc(c)
+		// operations that take microseconds: if they are still not back after half a minute, look for a deadlock
+		return ev.Watch(30*time.Second, "go.pennock.tech/tabular", func() *ev.Violation { return checkConc(c) })
 	case "burst":
-		return checkBurst(c)
+		return ev.Watch(60*time.Second, "go.pennock.tech/tabular", func() *ev.Violation { return checkBurst(c) })
 	case "unknown":
 		return checkUnknown(c)
 	}
